@@ -16,6 +16,10 @@ package main
 //                                             them), a package-level variable, or a local bound to such
 //   append                                    append(x, …) where x has such a root (it writes into spare
 //                                             capacity of a backing array that outlives the run)
+//   call:<name>                               a call of a function of another package that writes into what its first
+//                                             argument refers to (sort.Strings, atomic.AddInt32 …) or of a method of a
+//                                             type of another package that modifies its receiver (sync.Map.Store,
+//                                             sync.Pool.Put, sync.Once.Do, bytes.Buffer.Write/Reset …) on such a root
 //   pkgvar                                    any mention of a package-level variable (pools, caches,
 //                                             registries) other than an error value made by errors.New /
 //                                             fmt.Errorf (sentinels: compared, never written)
@@ -24,14 +28,29 @@ package main
 //                                             read-only) / param / pkg), or where the manager itself comes
 //                                             from when it is not a composite literal
 //
+// Calls of functions and methods of the package are followed BY PROVENANCE (round 5), as if the callee's body
+// stood at the call site: a store that a function makes into the container of one of its own parameters (a
+// slot of the slice / map, the variable behind the pointer, its backing array) is a store of the CALLER into
+// whatever it hands over in that position — nothing when that is an object the caller allocated itself or a
+// per-run object, an effect of the caller (rendered with the argument's origin) when it refers to shared data,
+// a store through the caller's own parameter (summarised in turn) when it is one; the first result of a
+// function that returns (part of) a parameter's object, of its receiver or of a package-level variable refers
+// to what the caller handed over / to the caller's receiver expression.  So a loop body or an if arm that is
+// extracted into a private helper (or inlined again) leaves the table unchanged.  Functions whose callers are
+// not all known (entry points, exported functions, functions and methods used as values) and stores THROUGH
+// an element of a parameter (the container's maker does not own what it holds) are reported at the function
+// itself, by the parameter's type, as before.  The summaries are computed to a fixed point.
+//
 // Roots are followed through local bindings (x := r.f[k]; for _, v := range r.l; y := x.g) and rendered
 // with local names replaced by what they were bound to (index expressions as []), so that renaming a
 // local or reordering independent statements does not change the table.  Per-run types (their receivers,
 // parameters and what hangs off them are NOT reported): taskManager, task, channelManager, channel,
-// dagChannel, pregelChannel, checkpoint.  Boundary (not followed): methods of checkPointer (the
-// checkpoint store is the caller's, shared by design and keyed by the checkpoint id), the verif hooks.
+// dagChannel, pregelChannel, checkpoint.  Not followed: the verif hooks.  (Until round 4 the methods of
+// checkPointer were a boundary; the checkpoint STORE is the caller's, shared by design and keyed by the
+// checkpoint id — it is reached through an interface, which is not followed anyway — but the checkPointer
+// itself is part of the compiled record: a per-run setting stored in it is a store into shared data.)
 //
-// No type checker, no aliasing through function values or interfaces, package compose only: the analysis
+// No type checker, no aliasing through function values or interfaces, no calls across packages: the analysis
 // is part of the trusted base.  It cannot prove the hypothesis; it turns an edit that ADDS a store to
 // shared data, an append onto a shared slice, a pool, a lazily filled cache or a package-level variable
 // on the run path into a broken proof obligation (Proofs/GenAgreeC09.v) even when no generated case
@@ -82,11 +101,28 @@ func (c c09Class) coq() string {
 var c09PerRunTypes = map[string]bool{"taskManager": true, "task": true, "channelManager": true, "channel": true,
 	"dagChannel": true, "pregelChannel": true, "checkpoint": true, "toolCallTask": true}
 
-var c09BoundaryTypes = map[string]bool{"checkPointer": true}
+var c09BoundaryTypes = map[string]bool{}
 
 var c09Builtin = map[string]bool{"string": true, "bool": true, "int": true, "int8": true, "int16": true, "int32": true, "int64": true,
 	"uint": true, "uint8": true, "uint16": true, "uint32": true, "uint64": true, "uintptr": true, "byte": true, "rune": true,
 	"float32": true, "float64": true, "any": true, "error": true, "struct{}": true}
+
+// functions of other packages that write into what their first argument refers to, and methods of types of
+// other packages (sync.Map, sync.Pool, sync.Once, bytes.Buffer, strings.Builder, atomic values, container/list …)
+// that modify their receiver: a call of one of them on shared data is a store although no assignment is written
+var c09MutatingFuncs = map[string]bool{"sort.Strings": true, "sort.Ints": true, "sort.Float64s": true, "sort.Slice": true,
+	"sort.SliceStable": true, "sort.Sort": true, "sort.Stable": true, "slices.Sort": true, "slices.SortFunc": true,
+	"slices.SortStableFunc": true, "slices.Reverse": true, "rand.Shuffle": true,
+	"atomic.StoreInt32": true, "atomic.StoreInt64": true, "atomic.StoreUint32": true, "atomic.StoreUint64": true, "atomic.StorePointer": true,
+	"atomic.AddInt32": true, "atomic.AddInt64": true, "atomic.AddUint32": true, "atomic.AddUint64": true,
+	"atomic.SwapInt32": true, "atomic.SwapInt64": true, "atomic.CompareAndSwapInt32": true, "atomic.CompareAndSwapInt64": true,
+	"atomic.CompareAndSwapPointer": true, "atomic.SwapPointer": true}
+
+var c09MutatingMethods = map[string]bool{"Store": true, "LoadOrStore": true, "LoadAndDelete": true, "Delete": true, "Swap": true,
+	"CompareAndSwap": true, "CompareAndDelete": true, "Add": true, "Put": true, "Do": true, "Reset": true, "Write": true,
+	"WriteString": true, "WriteByte": true, "WriteRune": true, "ReadFrom": true, "Grow": true, "Truncate": true,
+	"PushBack": true, "PushFront": true, "Remove": true, "InsertBefore": true, "InsertAfter": true, "MoveToFront": true,
+	"MoveToBack": true, "Init": true, "Clear": true}
 
 type c09Var struct {
 	class  c09Class
@@ -111,21 +147,24 @@ func (f *c09Func) name() string {
 type c09Effect struct{ fn, kind, class, path string }
 
 type c09Pkg struct {
-	prefix       string                // "" for compose, "react:" / "host:" …
-	perRun       map[string]bool       // per-run types of the package
-	boundary     map[string]bool       // types whose methods are not followed
-	funcs        map[string]*c09Func   // functions by name
-	methods      map[string]*c09Func   // "T.m"
-	byName       map[string][]*c09Func // methods by method name
-	pkgVars      map[string]bool
-	sentinels    map[string]bool // package-level error values (errors.New / fmt.Errorf)
-	imports      map[string]bool
-	effects      map[c09Effect]bool
-	analysed     map[string]bool
-	notRunTime   map[string]int  // closures not followed (no context parameter), per host function
-	paramWriters map[string]bool // functions that store through (or append onto) a parameter of slice / map / pointer type
-	linkFields   map[string]bool // fields of per-run types that some literal fills with a reference into shared data (task.call …)
-	work         []*c09Func
+	prefix      string                // "" for compose, "react:" / "host:" …
+	perRun      map[string]bool       // per-run types of the package
+	boundary    map[string]bool       // types whose methods are not followed
+	funcs       map[string]*c09Func   // functions by name
+	methods     map[string]*c09Func   // "T.m"
+	byName      map[string][]*c09Func // methods by method name
+	pkgVars     map[string]bool
+	sentinels   map[string]bool // package-level error values (errors.New / fmt.Errorf)
+	imports     map[string]bool
+	effects     map[c09Effect]bool
+	analysed    map[string]bool
+	notRunTime  map[string]int             // closures not followed (no context parameter), per host function
+	paramWrites map[string][]c09ParamWrite // per function: the stores it makes through its own parameters (summary, resolved at the call sites)
+	returns     map[string][]c09Return     // per function: what its first result may refer to (a parameter's object, the receiver's, a package-level variable's)
+	rootFuncs   map[string]bool            // functions whose callers are not all known: entry points, exported functions, functions used as values
+	linkFields  map[string]bool            // fields of per-run types that some literal fills with a reference into shared data (task.call …)
+	work        []*c09Func
+	changed     bool // a summary grew during this pass: analyse again
 }
 
 // base type name of a type expression and whether it is a reference shape (pointer, slice, map, chan, ellipsis)
@@ -185,7 +224,7 @@ func c09Load(repo, rel, prefix string, perRun, boundary map[string]bool) (*c09Pk
 		return nil, err
 	}
 	p := &c09Pkg{prefix: prefix, perRun: perRun, boundary: boundary, funcs: map[string]*c09Func{}, methods: map[string]*c09Func{}, byName: map[string][]*c09Func{},
-		pkgVars: map[string]bool{}, sentinels: map[string]bool{}, imports: map[string]bool{}, effects: map[c09Effect]bool{}, analysed: map[string]bool{}, notRunTime: map[string]int{}, linkFields: map[string]bool{}, paramWriters: map[string]bool{}}
+		pkgVars: map[string]bool{}, sentinels: map[string]bool{}, imports: map[string]bool{}, effects: map[c09Effect]bool{}, analysed: map[string]bool{}, notRunTime: map[string]int{}, linkFields: map[string]bool{}, paramWrites: map[string][]c09ParamWrite{}, rootFuncs: map[string]bool{}, returns: map[string][]c09Return{}}
 	fset := token.NewFileSet()
 	for _, e := range ents {
 		n := e.Name()
@@ -261,13 +300,122 @@ type c09Scope struct {
 	fn     *c09Func
 	env    map[string]*c09Var
 	suffix string
+	lits   int    // nesting depth of function literals at the point under analysis
+	pshape []bool // per parameter of fn (flattened): is its type a container (slice, map, variadic, pointer to slice / map)?
+}
+
+// A store that a function makes THROUGH ONE OF ITS OWN PARAMETERS (param #idx, then suffix) writes an
+// object of the caller: what it is is decided at the call sites, by the provenance of the argument, as if
+// the function's body stood there (an extracted helper = the inlined code).
+type c09ParamWrite struct {
+	idx    int
+	kind   string
+	class  c09Class // class by the parameter's type (c09Param: builtin / foreign element type; c09Shared: a type of the package)
+	suffix string
+}
+
+// splits "param#3([]string)[].x" into (3, "param([]string)", "[].x"); idx < 0 when the path is not rooted at a parameter
+func c09ParamRoot(path string) (idx int, root, suffix string) {
+	if !strings.HasPrefix(path, "param#") {
+		return -1, "", ""
+	}
+	rest := path[len("param#"):]
+	open := strings.Index(rest, "(")
+	if open <= 0 {
+		return -1, "", ""
+	}
+	n := 0
+	for _, ch := range rest[:open] {
+		if ch < '0' || ch > '9' {
+			return -1, "", ""
+		}
+		n = n*10 + int(ch-'0')
+	}
+	depth := 0
+	for i := open; i < len(rest); i++ {
+		switch rest[i] {
+		case '(':
+			depth++
+		case ')':
+			depth--
+			if depth == 0 {
+				return n, "param" + rest[open:i+1], rest[i+1:]
+			}
+		}
+	}
+	return -1, "", ""
+}
+
+// the parameter indices are internal: "param#3(T)" is rendered "param(T)"
+func c09Render(path string) string {
+	var b strings.Builder
+	for {
+		i := strings.Index(path, "param#")
+		if i < 0 {
+			b.WriteString(path)
+			return b.String()
+		}
+		b.WriteString(path[:i+len("param")])
+		path = path[i+len("param#"):]
+		j := 0
+		for j < len(path) && path[j] >= '0' && path[j] <= '9' {
+			j++
+		}
+		path = path[j:]
+	}
+}
+
+func c09IsStoreKind(kind string) bool { return kind != "link" && kind != "pkgvar" && kind != "alloc" }
+
+// does a store of this kind, this far below the parameter, write the parameter's own container (a slot of the
+// slice / map, the slice behind the pointer, its backing array) rather than something reached through an element?
+func c09ContainerLevel(kind, suffix string) bool {
+	sfx := strings.ReplaceAll(suffix, "[:]", "")
+	switch kind {
+	case "assign", "incdec", "delete":
+		return sfx == "" || sfx == "[]"
+	case "append", "copy", "send":
+		return sfx == ""
+	}
+	if strings.HasPrefix(kind, "call:") {
+		return sfx == ""
+	}
+	return false
 }
 
 func (s *c09Scope) effect(kind string, class c09Class, path string) {
-	if class == c09Param && kind != "link" && kind != "pkgvar" && s.suffix == "" {
-		s.p.paramWriters[s.fn.name()] = true
+	if c09IsStoreKind(kind) && s.suffix == "" {
+		if idx, _, suffix := c09ParamRoot(path); idx >= 0 && idx < len(s.pshape) {
+			// provenance decides for a store into the parameter's OWN container (a slot of the slice / map, the
+			// variable behind the pointer, the backing array): that is memory of whoever made the container.  A
+			// store THROUGH an element is not decided by where the container comes from (a slice the caller
+			// made may hold values that outlive the run): it stays what the parameter's type says, reported here.
+			if c09ContainerLevel(kind, suffix) && (class == c09Param || (class == c09Shared && s.pshape[idx])) {
+				s.p.addParamWrite(s.fn.name(), c09ParamWrite{idx, kind, class, suffix})
+				if !s.p.rootFuncs[s.fn.name()] {
+					return // reported where the written object comes from (sharedArgs)
+				}
+			}
+		}
 	}
-	s.p.effects[c09Effect{s.p.prefix + s.fn.name() + s.suffix, kind, class.coq(), path}] = true
+	s.p.effects[c09Effect{s.p.prefix + s.fn.name() + s.suffix, kind, class.coq(), c09Render(path)}] = true
+}
+
+func (p *c09Pkg) addParamWrite(fn string, w c09ParamWrite) {
+	for _, o := range p.paramWrites[fn] {
+		if o == w {
+			return
+		}
+	}
+	p.paramWrites[fn] = append(p.paramWrites[fn], w)
+	p.changed = true
+}
+
+func (p *c09Pkg) markRoot(fn string) {
+	if !p.rootFuncs[fn] {
+		p.rootFuncs[fn] = true
+		p.changed = true
+	}
 }
 
 func c09Join(a, b c09Class) c09Class {
@@ -292,8 +440,9 @@ func (s *c09Scope) classOf(e ast.Expr) (c09Class, string) {
 			}
 			return c09Global, "pkg." + x.Name
 		}
-		if fn := s.p.funcs[x.Name]; fn != nil { // a function used as a value runs sooner or later
+		if fn := s.p.funcs[x.Name]; fn != nil { // a function used as a value runs sooner or later, called by we do not know whom
 			s.p.enqueue(fn)
+			s.p.markRoot(fn.name())
 		}
 		return c09Local, x.Name
 	case *ast.ParenExpr:
@@ -307,6 +456,7 @@ func (s *c09Scope) classOf(e ast.Expr) (c09Class, string) {
 		c, o := s.classOf(x.X)
 		for _, m := range s.p.byName[x.Sel.Name] { // a method value (tn.Invoke handed to a lambda constructor) runs later
 			s.p.enqueue(m)
+			s.p.markRoot(m.name())
 		}
 		if c <= c09Run && s.p.linkFields[x.Sel.Name] {
 			c = c09Shared // a per-run object's reference into the compiled record (by field name: the object may be a call's result)
@@ -407,6 +557,9 @@ func (s *c09Scope) call(x *ast.CallExpr) (c09Class, string) {
 			if fn := s.p.funcs[f.Name]; fn != nil {
 				s.p.enqueue(fn)
 				s.sharedArgs(fn, x)
+				if c, o, ok := s.resultOf(fn, x, c09Local, ""); ok {
+					return c, o
+				}
 				return c09Local, f.Name + "()"
 			}
 		}
@@ -424,11 +577,16 @@ func (s *c09Scope) call(x *ast.CallExpr) (c09Class, string) {
 		// package function?
 		if id, ok := f.X.(*ast.Ident); ok {
 			if _, isVar := s.env[id.Name]; !isVar && !s.p.pkgVars[id.Name] && s.p.imports[id.Name] {
+				if name := id.Name + "." + f.Sel.Name; c09MutatingFuncs[name] && len(x.Args) > 0 {
+					if c, o := s.classOf(x.Args[0]); c >= c09Param {
+						s.effect("call:"+name, c, o)
+					}
+				}
 				return c09Local, id.Name + "." + f.Sel.Name + "()"
 			}
 		}
 		c, o := s.classOf(f.X)
-		if f.Sel.Name == "Value" && len(x.Args) == 1 && strings.HasPrefix(o, "param(context.Context)") {
+		if f.Sel.Name == "Value" && len(x.Args) == 1 && strings.HasPrefix(c09Render(o), "param(context.Context)") {
 			// what a context carries is shared by everybody who is handed that context
 			return c09Captured, "ctx.Value()"
 		}
@@ -439,17 +597,31 @@ func (s *c09Scope) call(x *ast.CallExpr) (c09Class, string) {
 				typ = v.typ
 			}
 		}
+		rc, ro, rok := c09Local, "", false
+		result := func(m *c09Func) {
+			if c1, o1, ok := s.resultOf(m, x, c, o); ok && (!rok || c1 > rc) {
+				rc, ro, rok = c1, o1, true
+			}
+		}
 		if m := s.p.methods[typ+"."+f.Sel.Name]; typ != "" && m != nil {
 			s.p.enqueue(m)
 			s.sharedArgs(m, x)
+			result(m)
 		} else {
 			for _, m := range s.p.byName[f.Sel.Name] {
 				s.p.enqueue(m)
 				s.sharedArgs(m, x)
+				result(m)
+			}
+			if len(s.p.byName[f.Sel.Name]) == 0 && c >= c09Param && c09MutatingMethods[f.Sel.Name] {
+				s.effect("call:"+f.Sel.Name, c, o) // a method of a type of another package that modifies its receiver
 			}
 		}
 		if c == c09Global {
 			return c09Global, o + "." + f.Sel.Name + "()"
+		}
+		if rok {
+			return rc, ro
 		}
 		return c09Local, o + "." + f.Sel.Name + "()"
 	case *ast.FuncLit:
@@ -473,34 +645,102 @@ func (s *c09Scope) call(x *ast.CallExpr) (c09Class, string) {
 	return c09Local, ""
 }
 
-// a call of a function that writes through one of its parameters of slice / map / pointer type: no
-// argument in such a position may refer to shared data
+// a call of a function of the package that stores through its parameters: every such store is a store of the
+// CALLER into whatever it hands over in that position — nothing when that is an object the caller (or the run)
+// allocated itself, an effect of the caller (rendered as if the callee's body stood here) when it refers to
+// shared data, and a store through the caller's own parameter (summarised in turn) when it is one
 func (s *c09Scope) sharedArgs(callee *c09Func, x *ast.CallExpr) {
-	var slots []c09Class
+	nparams, variadic := 0, false
 	if callee.decl.Type.Params != nil {
 		for _, fl := range callee.decl.Type.Params.List {
-			c, _ := s.p.paramClass(fl.Type)
 			n := len(fl.Names)
 			if n == 0 {
 				n = 1
 			}
-			for i := 0; i < n; i++ {
-				slots = append(slots, c)
-			}
+			nparams += n
+			_, variadic = fl.Type.(*ast.Ellipsis)
 		}
 	}
+	writes := s.p.paramWrites[callee.name()]
 	for i, a := range x.Args {
 		c, o := s.classOf(a)
-		slot := c09Local
-		if i < len(slots) {
-			slot = slots[i]
-		} else if len(slots) > 0 {
-			slot = slots[len(slots)-1] // variadic
+		slot, spread := i, true
+		if variadic && i >= nparams-1 {
+			slot, spread = nparams-1, x.Ellipsis.IsValid()
 		}
-		if c >= c09Captured && slot == c09Param && s.p.paramWriters[callee.name()] {
-			s.effect("arg", c, callee.name()+"("+o+")")
+		if c < c09Param {
+			continue
+		}
+		for _, w := range writes {
+			if w.idx != slot {
+				continue
+			}
+			suffix := w.suffix
+			if !spread { // one element of the variadic parameter
+				suffix = strings.TrimPrefix(suffix, "[]")
+			}
+			s.effect(w.kind, c, o+suffix)
 		}
 	}
+}
+
+// What the first result of a function of the package may refer to: the object behind one of its parameters
+// (then: whatever the caller handed over there), something reached from its receiver (then: from the caller's
+// receiver expression), a package-level variable, a context value.  A result that is none of these is fresh.
+type c09Return struct {
+	class  c09Class
+	origin string // "param#i(T)…", the path below the receiver when recv is set, or an origin as it stands
+	recv   bool
+}
+
+func (p *c09Pkg) addReturn(fn string, r c09Return) {
+	for _, o := range p.returns[fn] {
+		if o == r {
+			return
+		}
+	}
+	p.returns[fn] = append(p.returns[fn], r)
+	p.changed = true
+}
+
+func (s *c09Scope) noteReturn(e ast.Expr) {
+	c, o := s.classOf(e)
+	if s.lits > 0 || s.suffix != "" || c < c09Param {
+		return
+	}
+	if s.fn.recv != "" && (o == s.fn.recv || strings.HasPrefix(o, s.fn.recv+".") || strings.HasPrefix(o, s.fn.recv+"[")) {
+		if c > c09Run { // by the receiver's type or through a link field
+			s.p.addReturn(s.fn.name(), c09Return{c, o[len(s.fn.recv):], true})
+		}
+		return
+	}
+	s.p.addReturn(s.fn.name(), c09Return{c, o, false})
+}
+
+func (s *c09Scope) resultOf(callee *c09Func, x *ast.CallExpr, recvClass c09Class, recvOrigin string) (c09Class, string, bool) {
+	best, bo, found := c09Local, "", false
+	take := func(c c09Class, o string) {
+		if c >= c09Param && (!found || c > best) {
+			best, bo, found = c, o, true
+		}
+	}
+	for _, r := range s.p.returns[callee.name()] {
+		switch idx, _, suffix := c09ParamRoot(r.origin); {
+		case r.recv:
+			take(c09Join(recvClass, r.class), recvOrigin+r.origin)
+		case idx >= 0:
+			if idx < len(x.Args) {
+				c, o := s.classOf(x.Args[idx])
+				if r.class > c09Param { // shared by what it is (the type, a link field on the way), whoever made the argument
+					c = c09Join(c, r.class)
+				}
+				take(c, o+suffix)
+			}
+		default:
+			take(r.class, r.origin)
+		}
+	}
+	return best, bo, found
 }
 
 func (s *c09Scope) bind(name string, c c09Class, origin string, rhs ast.Expr, define bool) {
@@ -605,7 +845,9 @@ func (s *c09Scope) funcLit(f *ast.FuncLit) {
 			}
 		}
 	}
+	s.lits++
 	s.block(f.Body)
+	s.lits--
 	s.env = saved
 }
 
@@ -735,8 +977,17 @@ func (s *c09Scope) stmt(st ast.Stmt) {
 			s.stmt(b)
 		}
 	case *ast.ReturnStmt:
-		for _, r := range x.Results {
-			s.classOf(r)
+		for i, r := range x.Results {
+			if i == 0 {
+				s.noteReturn(r)
+			} else {
+				s.classOf(r)
+			}
+		}
+		if len(x.Results) == 0 && s.lits == 0 && s.suffix == "" && s.fn.decl.Type.Results != nil && len(s.fn.decl.Type.Results.List) > 0 {
+			if ns := s.fn.decl.Type.Results.List[0].Names; len(ns) > 0 {
+				s.noteReturn(ns[0]) // a bare return of named results
+			}
 		}
 	case *ast.GoStmt:
 		s.classOf(x.Call)
@@ -749,6 +1000,9 @@ func (s *c09Scope) stmt(st ast.Stmt) {
 
 func (p *c09Pkg) analyse(f *c09Func) *c09Scope {
 	s := &c09Scope{p: p, fn: f, env: map[string]*c09Var{}}
+	if ast.IsExported(f.decl.Name.Name) {
+		p.markRoot(f.name()) // callable from other packages
+	}
 	if f.decl.Recv != nil {
 		for _, fl := range f.decl.Recv.List {
 			c, t := s.p.paramClass(fl.Type)
@@ -760,8 +1014,15 @@ func (p *c09Pkg) analyse(f *c09Func) *c09Scope {
 	if f.decl.Type.Params != nil {
 		for _, fl := range f.decl.Type.Params.List {
 			c, t := s.p.paramClass(fl.Type)
-			for _, n := range fl.Names {
-				s.env[n.Name] = &c09Var{class: c, origin: "param(" + strings.ReplaceAll(types.ExprString(fl.Type), " ", "") + ")", typ: t}
+			names := fl.Names
+			if len(names) == 0 {
+				names = []*ast.Ident{{Name: "_"}}
+			}
+			for _, n := range names {
+				if n.Name != "_" {
+					s.env[n.Name] = &c09Var{class: c, origin: fmt.Sprintf("param#%d(%s)", len(s.pshape), strings.ReplaceAll(types.ExprString(fl.Type), " ", "")), typ: t}
+				}
+				s.pshape = append(s.pshape, c09IsContainer(fl.Type))
 			}
 		}
 	}
@@ -774,6 +1035,26 @@ func (p *c09Pkg) analyse(f *c09Func) *c09Scope {
 	}
 	s.block(f.decl.Body)
 	return s
+}
+
+// slice, map, variadic, or a pointer to a slice / map: a parameter whose own slots a callee can write
+func c09IsContainer(t ast.Expr) bool {
+	switch x := t.(type) {
+	case *ast.ArrayType:
+		return x.Len == nil
+	case *ast.MapType, *ast.Ellipsis:
+		return true
+	case *ast.StarExpr:
+		switch y := x.X.(type) {
+		case *ast.ArrayType:
+			return y.Len == nil
+		case *ast.MapType:
+			return true
+		}
+	case *ast.ParenExpr:
+		return c09IsContainer(x.X)
+	}
+	return false
 }
 
 // a closure that runs on behalf of a run is handed the run's context (node functions, state handlers,
@@ -904,7 +1185,7 @@ func (p *c09Pkg) allocOf(f *c09Func) ([][2]string, error) {
 	}
 	if lit == nil {
 		c, o := s.classOf(ret)
-		return [][2]string{{"<the manager itself: " + o + ">", c.coq()}}, nil
+		return [][2]string{{"<the manager itself: " + c09Render(o) + ">", c.coq()}}, nil
 	}
 	var out [][2]string
 	for _, el := range lit.Elts {
@@ -922,12 +1203,26 @@ func (p *c09Pkg) allocOf(f *c09Func) ([][2]string, error) {
 // run analyses one package: the functions reachable from the given roots as run-path code, then the
 // closures of every other function
 func (p *c09Pkg) run(roots []string) error {
-	// first pass: which fields of per-run types refer to shared data; second pass: the effects
-	if err := p.run1(roots); err != nil {
-		return err
+	// The tables that one function's analysis needs of another's only grow (which fields of per-run types
+	// refer to shared data; which parameters a function stores through; whose callers are unknown): analyse
+	// until they are stable, the effects are those of the last pass.
+	for _, r := range roots {
+		p.markRoot(r)
 	}
-	p.effects, p.analysed, p.notRunTime = map[c09Effect]bool{}, map[string]bool{}, map[string]int{}
-	return p.run1(roots)
+	for pass := 0; ; pass++ {
+		links := len(p.linkFields)
+		p.changed = false
+		p.effects, p.analysed, p.notRunTime = map[c09Effect]bool{}, map[string]bool{}, map[string]int{}
+		if err := p.run1(roots); err != nil {
+			return err
+		}
+		if pass > 0 && !p.changed && len(p.linkFields) == links {
+			return nil
+		}
+		if pass > 20 {
+			return fmt.Errorf("%sthe summaries do not stabilise", p.prefix)
+		}
+	}
 }
 
 func (p *c09Pkg) run1(roots []string) error {
